@@ -14,6 +14,7 @@ class Impl:
         self.nodes = []     # allocation order = model refs
         self.atts = []
         self.assets = {}
+        self.other = None   # the other side of a deep copy
 
     def asset(self, name):
         if name is None: return None
@@ -32,9 +33,14 @@ class Impl:
             if k == 'add_node':
                 n = AttackGraphNode(type=op['type'], name=op['name'], ttc=None, asset=self.asset(op.get('asset')))
                 n.is_viable, n.is_necessary = op['viable'], op['necessary']
-                if op['type'] == 'defense': n.defense_status = 1.0 if op['defOne'] else 0.5
-                if op['type'] in ('exist', 'notExist'): n.existence_status = False
+                if op['type'] == 'defense' and op.get('defense') is None: n.defense_status = 1.0 if op['defOne'] else 0.5
                 if op['suppress']: n.tags = ['suppress']
+                if 'tags' in op: n.tags = list(op['tags'])
+                if op.get('ttc') is not None: n.ttc = json.loads(op['ttc'])
+                if op.get('defense') is not None: n.defense_status = float(op['defense'])
+                if op.get('exist') is not None: n.existence_status = op['exist']
+                if op.get('mitre') is not None: n.mitre_info = op['mitre']
+                if op.get('extras') not in (None, '{}'): n.extras = json.loads(op['extras'])
                 g.add_node(n, node_id=op.get('id'))
                 self.nodes.append(n)
             elif k == 'link':
@@ -66,6 +72,11 @@ class Impl:
                     self.nodes[r].is_viable, self.nodes[r].is_necessary = v, n
             elif k == 'prune':
                 apriori.prune_unviable_and_unnecessary_nodes(g)
+            elif k == 'touch':
+                n = self.nodes[op['n']]
+                if op['field'] == 'tags': n.tags.append('touched')
+                elif op['field'] == 'extras': n.extras['touched'] = 1
+                elif op['field'] == 'ttc': n.ttc['touched'] = 1
             elif k == 'trav':
                 out = query.is_node_traversable_by_attacker(self.nodes[op['n']], self.atts[op['a']])
             elif k == 'surface':
@@ -78,6 +89,26 @@ class Impl:
                 out = [n.id for n in query.get_defense_surface(g)]
             elif k == 'enabled_defenses':
                 out = [n.id for n in query.get_enabled_defenses(g)]
+            elif k == 'save_load':
+                from maltoolbox.attackgraph import AttackGraph
+                from .common import scratch
+                import os
+                path = os.path.join(scratch(), 'ag.' + ('json' if op['fmt'] == 'json' else op.get('ext', 'yml')))
+                g.save_to_file(path)
+                model = None
+                if op['withModel']:
+                    model = types.SimpleNamespace(name='m', attackers=[], get_asset_by_name=lambda nm: self.asset(nm))
+                g2 = AttackGraph.load_from_file(path, model=model)
+                self.g = g2; self.nodes = list(g2.nodes); self.atts = list(g2.attackers); self.other = None
+            elif k == 'deepcopy':
+                memo = {}
+                g2 = copy.deepcopy(g, memo)
+                self.memo_hits = memo
+                self.nodes.extend(memo[id(n)] for n in g.nodes)
+                self.atts.extend(memo[id(a)] for a in g.attackers)
+                self.other = g; self.g = g2
+            elif k == 'switch':
+                self.g, self.other = self.other, self.g
             elif k == 'lookup':
                 f = lambda o: None if o is None else o.id
                 out = {'ids': [f(g.get_node_by_id(i)) for i in op['ids']],
@@ -91,7 +122,7 @@ class Impl:
             err = 'AttackGraphException'
         except LookupError:
             err = 'LookupError'
-        return {'err': err, 'out': out, 'obs': self.obs()}
+        return {'err': err, 'out': out, 'obs': self.obs(), 'other': self.obs(self.other) if self.other is not None else None}
 
     def _eps(self, eps):
         # model entry points: [(asset, [steps])] from full names "asset:step"
@@ -101,11 +132,15 @@ class Impl:
             res.setdefault(a, []).append(s)
         return [(self.asset(a), steps) for a, steps in res.items()]
 
-    def obs(self):
-        g = self.g
+    def obs(self, g=None):
+        g = g or self.g
+        from .langgen import jtxt
         return {
             'nodes': [[n.id, n.full_name, [c.id for c in n.children], [p.id for p in n.parents],
-                       [a.id for a in n.compromised_by], n.is_viable, n.is_necessary] for n in g.nodes],
+                       [a.id for a in n.compromised_by], n.is_viable, n.is_necessary,
+                       [n.name, n.type, jtxt(n.ttc), None if n.defense_status is None else repr(float(n.defense_status)),
+                        n.existence_status, n.mitre_info, list(n.tags), jtxt(n.extras) if n.extras else '{}',
+                        n.asset.name if n.asset else None]] for n in g.nodes],
             'attackers': [[a.id, a.name, [n.id for n in a.entry_points], [n.id for n in a.reached_attack_steps]]
                           for a in g.attackers],
             'idIdx': [[k, v.id] for k, v in g._id_to_node.items()],
@@ -116,7 +151,7 @@ class Impl:
 def canon_obs(o):
     """property-level view: sets / multisets, no list order"""
     return {
-        'nodes': sorted([n[0], n[1], sorted(n[2]), sorted(n[3]), sorted(n[4]), n[5], n[6]] for n in o['nodes']),
+        'nodes': sorted([n[0], n[1], sorted(n[2]), sorted(n[3]), sorted(n[4]), n[5], n[6]] + ([n[7]] if len(n) > 7 else []) for n in o['nodes']),
         'attackers': sorted([a[0], a[1], sorted(a[2]), sorted(a[3])] for a in o['attackers']),
         'idIdx': sorted(o['idIdx']), 'nameIdx': sorted(o['nameIdx']), 'attIdx': sorted(o['attIdx']),
         'next': o['next']}
@@ -181,8 +216,10 @@ def mirror(g):
 # ------------------------------------------------------------------ generation
 class Gen:
     """random history over pools of live / removed handles"""
-    def __init__(self, rnd: random.Random, weights: dict, nmax=8, with_assets=True):
+    def __init__(self, rnd: random.Random, weights: dict, nmax=8, with_assets=True, rich=False):
         self.r, self.w, self.nmax, self.with_assets = rnd, weights, nmax, with_assets
+        self.rich = rich; self.copied = False; self.saved = None
+        self.snames, self.assets_of, self.extras_of, self.ttc_of, self.anames = {}, {}, {}, {}, {}
         self.live_n, self.dead_n, self.live_a, self.dead_a = [], [], [], []
         self.nrefs = 0; self.arefs = 0
         self.ids = {}        # node ref -> id (predicted: explicit or next)
@@ -204,10 +241,25 @@ class Gen:
         elif explicit or r.random() < 0.2:
             nid = r.choice([self.next_n + r.randint(0, 3), r.randint(-2, 12)])
         eff = nid if nid is not None else self.next_n
-        name = f's{self.nrefs}'
+        self.name_counter = getattr(self, 'name_counter', 0) + 1
+        name = f's{self.name_counter}'
         op = {'k': 'add_node', 'name': name, 'asset': asset, 'type': t,
               'viable': r.random() < 0.7, 'necessary': r.random() < 0.7,
               'defOne': r.random() < 0.5, 'suppress': r.random() < 0.3, 'id': nid}
+        if t == 'defense': op['defense'] = '1.0' if op['defOne'] else '0.5'
+        op['tags'] = ['suppress'] if op['suppress'] else []
+        if self.rich:
+            from .langgen import jtxt
+            op['tags'] = r.choice([[], [], ['suppress'], ['a', 'b'], ['hidden', 'suppress']])
+            op['suppress'] = 'suppress' in op['tags']
+            op['ttc'] = jtxt(r.choice([None, {'type': 'function', 'name': 'Exponential', 'arguments': [0.1]},
+                                       {'type': 'function', 'name': 'Enabled', 'arguments': []}]))
+            if t == 'defense':
+                op['defense'] = repr(r.choice([0.0, 1.0, 0.5, 0.25])); op['defOne'] = op['defense'] == '1.0'
+            if t in ('exist', 'notExist'): op['exist'] = r.random() < 0.5
+            if r.random() < 0.3: op['mitre'] = 'T1' + str(r.randint(100, 999))
+            if r.random() < 0.3: op['extras'] = jtxt({'pos': [r.randint(0, 9), r.randint(0, 9)], 'note': 'x'})
+        self.snames = getattr(self, 'snames', {}); self.assets_of = getattr(self, 'assets_of', {})
         self.ops.append(op)
         if eff in {self.ids[x] for x in self.live_n}:
             return None     # rejected: no allocation
@@ -216,13 +268,17 @@ class Gen:
         self.names[ref] = (asset + ':' + name) if asset else f'{eff}:{name}'
         self.live_n.append(ref); self.used_ids.add(eff)
         self.types[ref] = t; self.labels[ref] = (op['viable'], op['necessary'])
+        self.snames[ref] = name; self.assets_of[ref] = asset
+        self.extras_of = getattr(self, 'extras_of', {}); self.ttc_of = getattr(self, 'ttc_of', {})
+        self.extras_of[ref] = op.get('extras', '{}'); self.ttc_of[ref] = op.get('ttc', 'null')
         return ref
 
     def gen(self, length):
         r = self.r
         kinds, wts = zip(*self.w.items())
-        for _ in range(self.r.randint(2, 4)):
-            self.add_node()
+        if not self.ops:
+            for _ in range(self.r.randint(2, 4)):
+                self.add_node()
         while len(self.ops) < length:
             k = r.choices(kinds, wts)[0]
             if k == 'add_node':
@@ -245,13 +301,14 @@ class Gen:
                 live_ids = [self.ids[x] for x in self.live_n]
                 reached = r.sample(self.live_n, min(len(self.live_n), r.randint(0, 3)))
                 entry = r.sample(self.live_n, min(len(self.live_n), r.randint(0, 2)))
-                self.ops.append({'k': 'add_attacker', 'name': r.choice(['att', 'att', f'att{self.arefs}']), 'id': aid,
+                aname = r.choice(['att', 'att', f'att{self.arefs}'])
+                self.ops.append({'k': 'add_attacker', 'name': aname, 'id': aid,
                                  'entry': [self.ids[x] for x in entry], 'reached': [self.ids[x] for x in reached]})
                 if eff in {self.aids[x] for x in self.live_a}:
                     continue
                 a = self.arefs; self.arefs += 1
                 self.aids[a] = eff; self.next_a = max(eff + 1, self.next_a); self.used_aids.add(eff)
-                self.live_a.append(a); self.reached[a] = set(reached)
+                self.live_a.append(a); self.reached[a] = set(reached); self.anames[a] = aname
             elif k == 'remove_attacker' and self.live_a:
                 a = r.choice(self.live_a); self.live_a.remove(a); self.dead_a.append(a)
                 self.ops.append({'k': 'remove_attacker', 'a': a})
@@ -272,7 +329,7 @@ class Gen:
                 for nm, eps in atts:
                     a = self.arefs; self.arefs += 1
                     self.aids[a] = self.next_a; self.used_aids.add(self.next_a); self.next_a += 1
-                    self.live_a.append(a)
+                    self.live_a.append(a); self.anames[a] = nm
                     inv = {v: k2 for k2, v in self.names.items() if k2 in self.live_n}
                     self.reached[a] = {inv[e] for e in eps if e in inv}
             elif k == 'set_labels' and self.live_n:
@@ -292,10 +349,72 @@ class Gen:
                 self.ops.append({'k': 'surface', 'a': r.choice(self.live_a)})
             elif k == 'defense_surface':
                 self.ops.append({'k': r.choice(['defense_surface', 'enabled_defenses'])})
+            elif k == 'touch' and self.live_n:
+                from .langgen import jtxt
+                n = r.choice(self.live_n)
+                fld = r.choice(['tags', 'extras', 'ttc'])
+                if fld == 'ttc' and self.ttc_of.get(n, 'null') == 'null': fld = 'tags'
+                op = {'k': 'touch', 'n': n, 'field': fld}
+                if fld != 'tags':
+                    tab = self.extras_of if fld == 'extras' else self.ttc_of
+                    d = json.loads(tab[n]); d['touched'] = 1; tab[n] = jtxt(d); op['new'] = tab[n]
+                self.ops.append(op)
+            elif k == 'save_load' and not self.copied:
+                with_model = r.random() < 0.5
+                self.ops.append({'k': 'save_load', 'fmt': r.choice(['json', 'yaml']), 'ext': r.choice(['yml', 'yaml']), 'withModel': with_model})
+                order_n, order_a = list(self.live_n), list(self.live_a)
+                if self.ops[-1]['fmt'] != 'json':
+                    # PyYAML writes mappings with sorted keys: the loaded graph lists nodes by full name, attackers by key
+                    order_n = sorted(self.live_n, key=lambda x: self.names[x])
+                    keys, taken = {}, set()
+                    for a in self.live_a:
+                        k2 = self.anames[a]
+                        while k2 in taken: k2 = f'{k2}:{self.aids[a]}'
+                        taken.add(k2); keys[a] = k2
+                    order_a = sorted(self.live_a, key=lambda a: keys[a])
+                self.live_n, self.live_a = order_n, order_a
+                self.renumber({old: i for i, old in enumerate(order_n)}, {old: j for j, old in enumerate(order_a)})
+                self.nrefs, self.arefs = len(self.live_n), len(self.live_a)
+                self.next_n = max([self.ids[x] for x in self.live_n] + [-1]) + 1
+                self.next_a = max([self.aids[x] for x in self.live_a] + [-1]) + 1
+                for x in self.live_n:
+                    if not with_model or self.assets_of[x] is None:
+                        self.assets_of[x] = None; self.names[x] = f'{self.ids[x]}:{self.snames[x]}'
+            elif k == 'deepcopy' and not self.copied:
+                self.copied = True
+                self.ops.append({'k': 'deepcopy'})
+                self.saved = self.snapshot()
+                self.renumber({old: self.nrefs + i for i, old in enumerate(self.live_n)},
+                              {old: self.arefs + j for j, old in enumerate(self.live_a)})
+                self.nrefs += len(self.live_n); self.arefs += len(self.live_a)
+            elif k == 'switch' and self.copied:
+                self.ops.append({'k': 'switch'})
+                cur = self.snapshot(); self.restore(self.saved); self.saved = cur
             elif k == 'lookup':
                 self.ops.append(self.lookup_op())
         self.ops.append(self.lookup_op())
         return self.ops
+
+    PER_NODE = ('ids', 'names', 'types', 'labels', 'snames', 'assets_of', 'extras_of', 'ttc_of')
+    def snapshot(self):
+        import copy as _c
+        return _c.deepcopy({k: getattr(self, k) for k in ('live_n', 'dead_n', 'live_a', 'dead_a', 'next_n', 'next_a', 'reached', 'aids', 'anames') + self.PER_NODE})
+    def restore(self, snap):
+        # node / attacker tables are per reference: merge (references of both graphs stay valid)
+        for k in ('live_n', 'dead_n', 'live_a', 'dead_a', 'next_n', 'next_a'): setattr(self, k, snap[k])
+        for k in self.PER_NODE + ('reached', 'aids', 'anames'): getattr(self, k).update(snap[k])
+    def renumber(self, nmap, amap):
+        for k in self.PER_NODE:
+            d = getattr(self, k)
+            snap = dict(d)
+            for old, new in nmap.items():
+                if old in snap: d[new] = snap[old]
+        a_snap, r_snap, n_snap = dict(self.aids), dict(self.reached), dict(self.anames)
+        for old, new in amap.items():
+            self.aids[new] = a_snap[old]; self.anames[new] = n_snap.get(old, '')
+            self.reached[new] = {nmap[x] for x in r_snap.get(old, set()) if x in nmap}
+        self.live_n = [nmap[x] for x in self.live_n]; self.dead_n = []
+        self.live_a = [amap[x] for x in self.live_a]; self.dead_a = []
 
     def lookup_op(self):
         ids = sorted(self.used_ids | {-1, self.next_n, self.next_n + 1})
